@@ -1,4 +1,4 @@
-CONSTANTS MaxTx = 2  MaxH = 8  Level = 3
+CONSTANTS DispModes = {FALSE}  MaxTx = 2  MaxH = 8  Level = 3
 INIT Init
 NEXT Next
 VIEW view
